@@ -400,7 +400,9 @@ class FuzzyOr(SameArrayShapeMixin, Command):
             arrays, lineno=self.argument_lines.get("InFieldNames")
         )
 
-        result = reduce(lambda x, y: numpy.ma.maximum(x, y), arrays[1:], arrays[0])
+        result = reduce(
+            lambda x, y: numpy.ma.maximum(x, y), arrays[1:], arrays[0].copy()
+        )
 
         return insure_fuzzy(result, FUZZY_MIN, FUZZY_MAX)
 
@@ -424,7 +426,9 @@ class FuzzyAnd(SameArrayShapeMixin, Command):
             arrays, lineno=self.argument_lines.get("InFieldNames")
         )
 
-        result = reduce(lambda x, y: numpy.ma.minimum(x, y), arrays[1:], arrays[0])
+        result = reduce(
+            lambda x, y: numpy.ma.minimum(x, y), arrays[1:], arrays[0].copy()
+        )
 
         return insure_fuzzy(result, FUZZY_MIN, FUZZY_MAX)
 
